@@ -61,7 +61,7 @@ def _case(draw, variant=None):
     nrows = draw(st.integers(1, 10))
     pool = pn + vn
     cols = draw(st.lists(st.sampled_from(pool), min_size=1, max_size=2, unique=True))
-    if variant == "ia" and "x0" not in cols and draw(st.integers(0, 3)) > 0:
+    if variant == "ia" and "x0" not in cols:  # the assignment reads x0: scanning it is what the variant is for
         cols.append("x0")
     table = {}
     for c in cols:
@@ -330,7 +330,7 @@ def examine(case: dict, ctx) -> Outcome:
 
 def floors(ctx) -> list[str]:
     c = []
-    for k in ["cfg:seq", "rows>workers", "variant:ia", "delay"]:
+    for k in ["cfg:seq", "rows>workers", "variant:ia", "delay", "ia_of_scanned_initial_value"]:
         if ctx.classes.get(k, 0) < 2:
             c.append(f"class {k} only {ctx.classes.get(k, 0)}")
     return c
